@@ -578,6 +578,16 @@ func (p *c02) execValue(o *core.Obs, c c02Case) {
 	el, sinkAttr, lDec, rDec, _ := c01SinkEl(sink, c.Nbh, "v", "")
 	tpl := c01Head + el + c01Tail
 	val := c.Val.Go()
+	// every other case renders right after a render that failed in the middle of a text node and of an
+	// attribute (static text, then a mustache with an unknown filter): nothing of it may reach this one
+	afterFailure := (len(mustJSON(c.Val))+len(c.Nbh)+len(sink))%2 == 0
+	if afterFailure {
+		if _, ferr := renderStr(`<p title="Stale title: {{ w }} {{ v | c02NoSuchFilter }}">Stale text: {{ w }} {{ v | c02NoSuchFilter }}</p>`, map[string]any{"v": val, "w": "W"}); ferr == nil {
+			o.Fail(c, "value/unknown-filter-no-error", "a mustache with an unknown filter did not fail the render")
+		}
+		o.Evals++
+		o.Cell("value/after-a-failed-render")
+	}
 	out, err := renderStr(tpl, map[string]any{"v": val, "w": "W"})
 	o.Evals++
 	o.NT("value", sink, c.Nbh, mustJSON(c.Val))
@@ -585,6 +595,10 @@ func (p *c02) execValue(o *core.Obs, c c02Case) {
 	sig := fmt.Sprintf("value/%s/%s/%s", sink, c01NbhClass(c.Nbh), c02KindClass(c.Val.K))
 	if err != nil {
 		o.Fail(c, sig+"/error", "render failed: %v", err)
+		return
+	}
+	if afterFailure && strings.Contains(out, "Stale t") {
+		o.Fail(c, "value/text-of-a-failed-render-in-the-next-output/"+sink, "the render before this one failed in the middle of a text node / attribute; its text shows up here\noutput: %s", out)
 		return
 	}
 	doc := oracle.Parse(out, false)
